@@ -176,6 +176,13 @@ pub fn check(case: &C08Case) -> CaseOutcome
                 plans.push(format!("short:{}", t.k));
             }
         }
+        // persistent write failure (a device that stays full or was withdrawn): from a scratch-file write on, every write fails
+        const PERSISTENT: [&str; 6] = ["ENOSPC", "EIO", "EINVAL", "ENOSYS", "EOPNOTSUPP", "EDQUOT"];
+        for t in wp.iter().filter(|t| t.kind == "write")
+        {
+            plans.push(format!("wfail:{}:{}", t.k, PERSISTENT[t.k as usize % PERSISTENT.len()]));
+            plans.push(format!("wfail:{}:{}", t.k, PERSISTENT[(t.k as usize / PERSISTENT.len() + t.k as usize + 2) % PERSISTENT.len()]));
+        }
         // stop requests while a temporary file exists: the run still "exits normally", so clause (c) applies
         for t in &wp
         {
@@ -212,7 +219,7 @@ pub fn check(case: &C08Case) -> CaseOutcome
     {
         let fr = fault_run(&tree, false, Some(plan.clone()), None);
         o.evals += 1;
-        o.class(if plan.starts_with("sig") { "plan-stop-signal-on-write-path" } else if plan.contains(';') { "plan-multi-fault" } else if plan.starts_with("short") { "plan-short-write" } else { "plan-single-fault" });
+        o.class(if plan.starts_with("wfail") { "plan-persistent-write-failure" } else if plan.starts_with("sig") { "plan-stop-signal-on-write-path" } else if plan.contains(';') { "plan-multi-fault" } else if plan.starts_with("short") { "plan-short-write" } else { "plan-single-fault" });
         judge(&mut o, &tree, &files, &fr, plan, false, &mut seen);
         // non-trivial: the failure hit one file while another file was updated
         let updated_some = files.iter().any(|(rel, orig)| fr.after.get(rel).map(|n| n != orig).unwrap_or(false));
@@ -274,7 +281,7 @@ pub fn run(env: &Env, rec: &Recorder) -> (String, Vec<&'static str>)
 {
     pbt_opts(env, rec, "faults", env.cases(120, 4000), 40, &strategy, &check);
     (
-        "trees of 2-6 small source files (subset needing insertions), both styles, cache on/off; per tree ALL single faults on the write path (temporary-file creation, every write incl. the final flush, the rename; each applicable errno, and short writes) plus up to 10 generated 2-3-fault plans, plus one and two stop signals (SIGTERM/SIGINT) at every write-path operation, each on a fresh copy, plus (1 in 3 trees) a real cross-filesystem TMPDIR (project on tmpfs, TMPDIR on ext4) with no injection. Oracle: write-path failure => exit != 0; exit 0 => printed count = tokens in the files and a following fault-free --check passes; normal exit without injected unlink failure => no breadlog-*.tmp left in TMPDIR. Non-trivial = distinct (tree, plan) where the failure left one file untouched while another file was updated".to_string(),
+        "trees of 2-6 small source files (subset needing insertions), both styles, cache on/off; per tree ALL single faults on the write path (temporary-file creation, every write incl. the final flush, the rename; each applicable errno, and short writes), a persistent write failure starting at every scratch-file write (ENOSPC/EIO/EINVAL/ENOSYS/EOPNOTSUPP/EDQUOT), plus up to 10 generated 2-3-fault plans, plus one and two stop signals (SIGTERM/SIGINT) at every write-path operation, each on a fresh copy, plus (1 in 3 trees) a real cross-filesystem TMPDIR (project on tmpfs, TMPDIR on ext4) with no injection. Oracle: write-path failure => exit != 0; exit 0 => printed count = tokens in the files and a following fault-free --check passes; normal exit without injected unlink failure => no breadlog-*.tmp left in TMPDIR. Non-trivial = distinct (tree, plan) where the failure left one file untouched while another file was updated".to_string(),
         vec!["faults injected at libc call boundaries via LD_PRELOAD", "the cross-filesystem case relies on /dev/shm (tmpfs) and /verif/.build (disk) being different filesystems; the evidence counts how often rename really failed with EXDEV"],
     )
 }
